@@ -334,7 +334,7 @@ def run(tier, seed):
                        "for operands beyond 2^15 an inexact result or an error is accepted, a different exact number is not"]
     ctx.observed["grid_size"] = len(g)
     cases = core.mine(build_cases(ctx, tier, g))
-    rcases = random_cases(ctx, 20000 if tier == "quick" else core.share(400000))
+    rcases = random_cases(ctx, 20000 if tier == "quick" else core.share(2000000))
     legs = ["dev", "release"]
     for leg in legs:
         cs = cases if (leg == "dev" or tier == "thorough") else cases[::7]
